@@ -94,6 +94,16 @@ func band(pix []uint8, stride int, s Spec) {
 		}
 		return
 	}
+	if s.Fill == "rowpairs" {
+		// pixel-doubled art, horizontal bands: every odd row repeats the row above it, rows two apart differ
+		if stride <= 0 {
+			return
+		}
+		for y := 1; (y+1)*stride <= len(pix); y += 2 {
+			copy(pix[y*stride:(y+1)*stride], pix[(y-1)*stride:y*stride])
+		}
+		return
+	}
 	if s.Fill == "flatrows" || s.Fill == "flatcols" || s.Fill == "flat" {
 		// every row one colour (stripes, letterboxing, page margins; bands of 1-3 equal rows), every column one
 		// colour, or the whole picture one colour: what run-length shortcuts and "same as the last pixel" memos key on
@@ -203,11 +213,18 @@ type Built struct {
 	Spec Spec
 }
 
-// Wrapper hides the concrete type of an image.
-type Wrapper struct{ image.Image }
+// Wrapper hides the concrete type of an image.  Like many images of a caller's own it is a plain struct value that
+// holds a slice, so two of them can not be compared with ==.
+type Wrapper struct {
+	image.Image
+	Notes []string
+}
 
-// DrawWrapper hides the concrete type of a draw.Image.
-type DrawWrapper struct{ draw.Image }
+// DrawWrapper hides the concrete type of a draw.Image (an uncomparable struct value as well).
+type DrawWrapper struct {
+	draw.Image
+	Notes []string
+}
 
 type filler struct {
 	mode string
@@ -363,9 +380,9 @@ func Build(s Spec) Built {
 	}
 	if s.Wrap {
 		if d, ok := out.(draw.Image); ok {
-			out = DrawWrapper{d}
+			out = DrawWrapper{Image: d}
 		} else {
-			out = Wrapper{out}
+			out = Wrapper{Image: out}
 		}
 	}
 	return Built{Img: out, Bufs: bufs, Spec: s}
@@ -493,7 +510,7 @@ func Gen(t *rapid.T, label string, o GenOpts) Spec {
 	if rapid.IntRange(0, 5).Draw(t, label+"widestride") == 0 {
 		s.StrideExtra = rapid.SampledFrom([]int{1, 2, 3, 4, 5, 8, 13, 64}).Draw(t, label+"strideextra")
 	}
-	fills := []string{"prng", "prng", "prng", "ff", "zero", "ramp", "rowbands", "colbands", "sparse", "edges", "flatrows", "flatrows", "flatcols", "flat", "opaque"}
+	fills := []string{"prng", "prng", "prng", "ff", "zero", "ramp", "rowbands", "colbands", "sparse", "edges", "flatrows", "flatrows", "flatcols", "flat", "opaque", "rowpairs"}
 	if o.Orbit {
 		fills = append(fills, "orbit-h", "orbit-v")
 	}
